@@ -279,6 +279,7 @@ class SciPyOptimizer(Optimizer):
         lin_coef: NDArray[np.float64] | None,
     ) -> NDArray[np.float64]:
         assert self._normalized_constraints is not None
+        self._set_current_variables(variables)
         if self._normalized_constraints.constraints is None:
             constraints = []
             if self._config.nonlinear_constraints is not None:
@@ -298,6 +299,7 @@ class SciPyOptimizer(Optimizer):
         lin_coef: NDArray[np.float64] | None,
     ) -> NDArray[np.float64]:
         assert self._normalized_constraints is not None
+        self._set_current_variables(variables)
         if self._normalized_constraints.gradients is None:
             gradients = []
             if self._config.nonlinear_constraints is not None:
@@ -397,6 +399,20 @@ class SciPyOptimizer(Optimizer):
         assert gradients is not None
         return gradients[1:, :]
 
+    def _set_current_variables(self, variables: NDArray[np.float64]) -> None:
+        # Everything that is cached belongs to a single point, if the variables
+        # change all cached values are invalidated:
+        if (
+            self._cached_variables is None
+            or variables.shape != self._cached_variables.shape
+            or not np.allclose(variables, self._cached_variables)
+        ):
+            self._cached_variables = variables.copy()
+            self._cached_function = None
+            self._cached_gradient = None
+            if self._normalized_constraints is not None:
+                self._normalized_constraints.reset()
+
     def _get_function_or_gradient(
         self, variables: NDArray[np.float64], *, get_function: bool, get_gradient: bool
     ) -> tuple[NDArray[np.float64] | None, NDArray[np.float64] | None]:
@@ -406,16 +422,7 @@ class SciPyOptimizer(Optimizer):
         if self._method in _NO_GRADIENT:
             get_gradient = False
 
-        if (
-            self._cached_variables is None
-            or variables.shape != self._cached_variables.shape
-            or not np.allclose(variables, self._cached_variables)
-        ):
-            self._cached_variables = None
-            self._cached_function = None
-            self._cached_gradient = None
-            if self._normalized_constraints is not None:
-                self._normalized_constraints.reset()
+        self._set_current_variables(variables)
 
         function = self._cached_function if get_function else None
         gradient = self._cached_gradient if get_gradient else None
@@ -424,9 +431,17 @@ class SciPyOptimizer(Optimizer):
         compute_gradients = get_gradient and gradient is None
 
         if compute_functions or compute_gradients:
-            self._cached_variables = variables.copy()
-            compute_functions = compute_functions or self._config.optimizer.speculative
-            compute_gradients = compute_gradients or self._config.optimizer.speculative
+            # Gradient evaluations need the function values, if these are not
+            # known yet they are requested explicitly, so that they are not
+            # evaluated again later. Speculative evaluations are only useful
+            # for methods that use gradients.
+            speculative = (
+                self._config.optimizer.speculative and self._method not in _NO_GRADIENT
+            )
+            compute_functions = self._cached_function is None
+            compute_gradients = self._cached_gradient is None and (
+                compute_gradients or speculative
+            )
             new_function, new_gradient = self._compute_functions_and_gradients(
                 variables,
                 compute_functions=compute_functions,
